@@ -74,6 +74,8 @@ class CodeSym:
     # ---------- types
     def ity(self, n):
         t = n.get('type', {})
+        if (t.get('qualType') or '').rstrip().endswith('&'):
+            t = {'qualType': t['qualType'].rstrip()[:-1].strip(), 'desugaredQualType': (t.get('desugaredQualType') or t['qualType']).rstrip().rstrip('&').strip()}
         ti = type_info(t)
         if ti is not None:
             return ti
@@ -183,6 +185,13 @@ class CodeSym:
             if rd['kind'] == 'VarDecl':
                 v = const_value(n, self.tu)
                 if v is None:
+                    # a named compile-time constant whose initialiser is an expression (sizeof ..., arithmetic on other constants)
+                    d = self.tu.get(rd['id'])
+                    init = [c for c in (d or {}).get('inner', []) if 'type' in c or c.get('kind', '').endswith('Expr') or c.get('kind', '').endswith('Literal')]
+                    if d is not None and init and (d.get('constexpr') or 'const ' in d.get('type', {}).get('qualType', '') + ' '):
+                        e = self.ev(init[-1])
+                        if not isinstance(e, Ptr):
+                            return e
                     raise Untranslatable('variable ' + rd.get('name', ''))
                 return kconst(v)
             raise Untranslatable('reference to ' + rd['kind'] + ' ' + rd.get('name', ''))
@@ -303,10 +312,60 @@ class CodeSym:
             e = K('KLet', i, v, e)
         return e
 
+    def ref_call(self, n):
+        """n is a call of a function whose body is available and that has a non-const integer reference parameter"""
+        if n.get('kind') != 'CallExpr':
+            return None
+        callee = n['inner'][0]
+        while callee['kind'] in ('ImplicitCastExpr',):
+            callee = callee['inner'][0]
+        rd = callee.get('referencedDecl', {})
+        fd = self.tu.get(rd.get('id')); tu = self.tu
+        if fd is None or not any(c.get('kind') == 'CompoundStmt' for c in fd.get('inner', [])):
+            mg = self.W.decl_mangled_all.get(rd.get('id'))
+            m = self.W.methods.get(mg)
+            if m is None:
+                return None
+            fd = m[2]; tu = self.W.tu_of[mg]
+        params = [c for c in fd['inner'] if c['kind'] == 'ParmVarDecl']
+        if not any(is_mut_ref(p) for p in params):
+            return None
+        return fd, tu, n['inner'][1:]
+
+    def call_cps(self, fd, tu, argnodes, k):
+        if self.depth > 5:
+            raise Untranslatable('call depth')
+        sub = CodeSym(self.W, tu, self.layout, self.depth + 1)
+        sub.nvars = self.nvars; sub.accs = self.accs
+        params = [c for c in fd['inner'] if c['kind'] == 'ParmVarDecl']
+        binds = []
+        for p, a in zip(params, argnodes):
+            if is_mut_ref(p):
+                an = strip_expr(a)
+                if an.get('kind') != 'DeclRefExpr' or an['referencedDecl']['id'] not in self.vars or self.vars[an['referencedDecl']['id']][0] != 'int':
+                    raise Untranslatable('reference argument that is not an integer local')
+                sub.vars[p['id']] = self.vars[an['referencedDecl']['id']]      # the same variable
+                continue
+            v = self.ev(a)
+            if isinstance(v, Ptr):
+                sub.vars[p['id']] = ('ptr', Ptr(v.off, sub.pointee(p)))
+            else:
+                i = self.fresh(); w, sg = sub.ity(p)
+                sub.vars[p['id']] = ('int', i, (w, sg))
+                binds.append((i, K('KCast', w, sg, v)))
+        sub.ret_k = k
+        body = [c for c in fd['inner'] if c['kind'] == 'CompoundStmt'][0]
+        e = sub.stmts([body])
+        for i, v in reversed(binds):
+            e = K('KLet', i, v, e)
+        return e
+
     # ---------- statements, continuation style: the value of the statement list is the value the function returns
     def stmts(self, sts):
         sts = list(sts)
         if not sts:
+            if getattr(self, 'ret_k', None):
+                return self.ret_k(None)
             raise Untranslatable('control reaches the end of the function without a return')
         st = sts[0]; rest = sts[1:]
         k = st['kind']; inner = st.get('inner', [])
@@ -320,14 +379,41 @@ class CodeSym:
             return self.stmts(rest)
         if k == 'ReturnStmt':
             if not inner:
+                if getattr(self, 'ret_k', None):
+                    return self.ret_k(None)
                 raise Untranslatable('return without a value')
             v = self.ev(inner[0])
             if isinstance(v, Ptr):
                 raise Untranslatable('returns a pointer')
+            if getattr(self, 'ret_k', None):
+                return self.ret_k(v)
             return v
         if k == 'IfStmt':
             if st.get('hasInit') or st.get('hasVar'):
                 raise Untranslatable('if with initialiser')
+            cn, neg = strip_expr(inner[0]), False
+            while cn.get('kind') == 'UnaryOperator' and cn.get('opcode') == '!':
+                neg = not neg; cn = strip_expr(cn['inner'][0])
+            rc = self.ref_call(cn)
+            if rc:
+                # `if ([!]helper(..., ref, ...)) A; rest`: the helper's body is inlined and the rest of this function continues at each
+                # of its return points, so that what it stored through its reference parameters is visible afterwards
+                def kont(v, inner=inner, rest=rest, neg=neg):
+                    if v is None:
+                        raise Untranslatable('void helper used as a condition')
+                    saved = dict(self.vars)
+                    if v[0] == 'KConst':
+                        # the helper returned a literal at this return point: only the branch taken is continued
+                        taken = (v[1] != 0) != neg
+                        r = self.stmts(([inner[1]] if taken else ([inner[2]] if len(inner) > 2 else [])) + rest)
+                        self.vars = saved
+                        return r
+                    a = self.stmts([inner[1]] + rest)
+                    self.vars = dict(saved)
+                    b = self.stmts(([inner[2]] if len(inner) > 2 else []) + rest)
+                    self.vars = saved
+                    return K('KIte', K('KNot', v) if neg else v, a, b)
+                return self.call_cps(rc[0], rc[1], rc[2], kont)
             c = self.ev(inner[0])
             saved = dict(self.vars)
             a = self.stmts([inner[1]] + rest)
@@ -399,6 +485,14 @@ class CodeSym:
             var = self.vars[lhs['referencedDecl']['id']]
             r = K('KBin', 'OAdd' if st['opcode'] == '++' else 'OSub', var[2][0], var[2][1], K('KVar', var[1]), kconst(1))
             return K('KLet', var[1], r, self.stmts(rest))
+        if k == 'CallExpr' and self.ref_call(st):
+            rc = self.ref_call(st)
+            def kont2(v, rest=rest):
+                saved = dict(self.vars)
+                r = self.stmts(rest)
+                self.vars = saved
+                return r
+            return self.call_cps(rc[0], rc[1], rc[2], kont2)
         if k == 'ForStmt':
             # for (T i = a; i < b; ++i) with literal a, b, the body not assigning i: unrolled
             init, _, cond, inc, body = (inner + [None] * 5)[:5]
@@ -437,6 +531,15 @@ class CodeSym:
         # the body followed by the remaining iterations: the remaining iterations are re-entered through a marker statement
         marker = {'kind': '__unrolled__', 'seq': seq[1:], 'rest': rest}
         return self.stmts([h, marker])
+
+def strip_expr(n):
+    while n.get('kind') in ('ImplicitCastExpr', 'ParenExpr', 'ExprWithCleanups', 'MaterializeTemporaryExpr') and n.get('inner'):
+        n = n['inner'][0]
+    return n
+
+def is_mut_ref(p):
+    q = p.get('type', {}).get('qualType', '')
+    return q.rstrip().endswith('&') and not q.lstrip().startswith('const ')
 
 def assigns(n, did):
     if n is None:
@@ -479,21 +582,26 @@ def write_gencode(out, W, layout, reads):
     L = ['(* GENERATED by translator/code2coq.py from the current sources of /repo - do not edit. *)',
          'From Coq Require Import ZArith List String.', 'Require Import CMP.Cir.', 'Import ListNotations.',
          'Local Open Scope Z_scope.', 'Local Open Scope string_scope.', '']
-    done, lost, used = [], [], set()
+    done, lost, absent, used = [], [], [], set()
     for q in TARGETS:
         e, why, info = translate_function(W, layout, q)
         ident = 'code_' + re.sub(r'[^A-Za-z0-9]+', '_', q.replace('ASAM::CMP::', ''))
         if e is None:
-            lost.append((q, why))
+            # a function that no longer exists has nothing to be checked (absent); one that exists but leaves the translatable
+            # fragment is a lost obligation
+            (absent if why == 'function not found in the sources' else lost).append((q, why))
+            L.append('(* %s: %s *)' % (q, why))
+            L.append('Definition %s : option cexp := None.\n' % ident)
             continue
         sig, accs = info
         used.update(accs)
         L.append('(* %s(%s) *)' % (q, ', '.join('%s:%s' % (n, 'ptr' if w == 0 else 'u%d' % w) for n, w in sig)))
-        L.append('Definition %s : cexp :=\n %s.\n' % (ident, coq(e)))
+        L.append('Definition %s : option cexp := Some\n %s.\n' % (ident, coq(e)))
         done.append((q, ident))
-    L.append('Definition gen_code : list (string * cexp) := [' + '; '.join('("%s", %s)' % (q, i) for q, i in done) + '].')
+    L.append('Definition gen_code : list (string * option cexp) := [' + '; '.join('("%s", %s)' % (q, i) for q, i in done) + '].')
     L.append('Definition gen_code_lost : list (string * string) := [' + '; '.join('("%s", "%s")' % (q, w.replace('"', "'")) for q, w in lost) + '].')
+    L.append('Definition gen_code_absent : list string := [' + '; '.join('"%s"' % q for q, w in absent) + '].')
     L.append('(* byte extents (offset, size) inside the object that each accessor called from the functions above reads *)')
     L.append('Definition gen_reads : list (string * list (Z * Z)) := [' + ';\n  '.join(
-        '("%s", [%s])' % (q, '; '.join('(%d, %d)' % r for r in reads.get(q, [(-1, 0)]))) for q in sorted(used)) + '].')
-    return '\n'.join(L) + '\n', done, lost
+        '("%s", [%s])' % (q, '; '.join('(%d, %d)' % r for r in reads.get(q, [(-1, 0)]))) for q in sorted(set(reads) | used)) + '].')
+    return '\n'.join(L) + '\n', done, lost + [(q, 'absent: ' + w) for q, w in absent]
